@@ -263,6 +263,17 @@ pub fn finish(ctx: &Ctx, mut out: Outcome) -> i32 {
             }
         }
     }
+    // lock-order monitor (hook H4), whole run, all threads (the second thread of C20 included): any acquisition out of rank
+    // order that no single execution has already reported
+    {
+        use std::sync::atomic::Ordering;
+        let inv = h2::verif::lock_order::INVERSIONS.load(Ordering::Relaxed);
+        let acq = h2::verif::lock_order::ACQUISITIONS.load(Ordering::Relaxed);
+        out.set("lock_order_monitor", json!({"acquisitions_of_h2_mutexes": acq, "out_of_order": inv}));
+        if inv > 0 && !out.violations.iter().any(|v| v.rule.ends_with(".lock-order")) {
+            out.violations.push(Violation { rule: format!("{}.lock-order", ctx.prop), signature: "inversion".into(), what: format!("{} of {} acquisitions of h2's internal mutexes were out of order (stream state before send buffer, neither twice) during this run: two threads doing this can deadlock", inv, acq), replay: json!({"harness": "lock-order", "note": "counted over the whole run; re-run the check to reproduce"}) });
+        }
+    }
     let mut new_violations = 0;
     let mut known_hits: BTreeMap<String, String> = BTreeMap::new();
     // VERIF_OUT_DIR (used only by tools/seedlab.sh, which tests seeded changes in a scratch copy): where replays and evidence go
